@@ -6,6 +6,7 @@
 -/
 import Cgp.ItsOps
 import Cgp.Token
+import Cgp.Toy
 import Cgp.Proofs.C05
 namespace Cgp.Props.C05
 open Cgp Cgp.Xdr Cgp.Its
@@ -214,6 +215,148 @@ theorem custody_run (st : State) (ops : List Op) (a : Addr) (hgs : st.gasService
     rw [e, h2, h1]
     simp only [netCustody, Int.add_assoc]
 
+/-! ### the supply equation over every history -/
+
+/-- the holders whose balance (of any token) an operation can change: its parties, the service (custody) and the gas
+    service (gas payments); `self` / `gs` are the service's and the gas service's addresses (constant, `frame_step`) -/
+def touched (self gs : Addr) : Op → List Addr
+  | .deploy _ caller _ _ _ _ _ _ => [caller]
+  | .deployRemote _ caller _ _ _ _ => [caller, gs]
+  | .deployRemoteCanonical _ _ _ spender _ _ => [spender, gs]
+  | .transfer _ caller _ _ _ _ _ _ _ => [caller, self, gs]
+  | .execute _ _ _ payload =>
+    match Abi.decodeHub payload with
+    | .ok (.receiveFromHub _ (.transfer t)) =>
+      match addrFromXdr t.dest with
+      | some r => [r, self]
+      | none => []
+    | _ => []
+  | .userTransfer _ s d _ _ => [s, d]
+  | .minterMint _ _ d _ _ => [d]
+  | _ => []
+
+/-- the total of token `a` held by the holders `hs` -/
+def sumBal (st : State) (a : Addr) (hs : List Addr) : Int := (hs.map (balOf st a)).sum
+
+/-- signed change of the SUPPLY of token `a` caused by a SUCCESSFUL operation, read off the state BEFORE it: the initial
+    supply of a local deployment that creates `a`; minus the amount of an outbound transfer of an id registered for `a`
+    with the mint/burn manager; plus the amount of an inbound transfer for such an id; plus a designated minter's own
+    mint. Nothing else (lock/unlock transfers, gas payments, user transfers, remote deployments, registrations, owner
+    operations, gateway activity) changes any supply. -/
+def supplyFlow (st : State) (a : Addr) : Op → Int
+  | .deploy _ caller salt _ _ _ supply _ =>
+    if deployedAddress S k st.self (interchainTokenId H k st.chainName caller salt) = a ∧ supply > 0 then supply else 0
+  | .transfer _ _ tid _ _ amount _ _ _ => if st.registry tid = some (a, .native) then - amount else 0
+  | .execute _ _ _ payload =>
+    match Abi.decodeHub payload with
+    | .ok (.receiveFromHub _ (.transfer t)) => if st.registry t.tokenId = some (a, .native) then t.amount else 0
+    | _ => 0
+  | .minterMint t _ _ amount _ => if t = a then amount else 0
+  | _ => 0
+
+/-- initial supplies plus mints minus burns (successful operations only), accumulated along a history -/
+def netSupply (st : State) (a : Addr) : List Op → Int
+  | [] => 0
+  | op :: rest =>
+    (match (step H S k st op).2 with | .err _ => 0 | _ => supplyFlow H S k st a op) + netSupply (step H S k st op).1 a rest
+
+theorem supply_step (st : State) (op : Op) (a : Addr) (hs : List Addr) (hnd : hs.Nodup)
+    (hcov : ∀ x ∈ touched st.self st.gasService op, x ∈ hs) :
+    sumBal (step H S k st op).1 a hs =
+      sumBal st a hs + (match (step H S k st op).2 with | .err _ => 0 | _ => supplyFlow H S k st a op) := by
+  cases op
+  case deploy au ca sa n sy d su m =>
+    have hca : ca ∈ hs := hcov ca (by simp [touched])
+    cases hx : deployInterchainToken H S k st au ca sa n sy d su m with
+    | error e => simp only [step, hx, wrapId, Int.add_zero]
+    | ok r =>
+      simp only [step, hx, wrapId, sumBal, supplyFlow]
+      exact Proofs.C05.deployIT_sum H S k hx a hnd hca
+  case deployRemote au ca sa de gt ga =>
+    have hca : ca ∈ hs := hcov ca (by simp [touched])
+    have hgs : st.gasService ∈ hs := hcov _ (by simp [touched])
+    cases hx : deployRemoteInterchainToken H k st au ca sa de gt ga with
+    | error e => simp only [step, hx, wrapId, Int.add_zero]
+    | ok r =>
+      simp only [step, hx, wrapId, sumBal, supplyFlow, Int.add_zero]
+      unfold deployRemoteInterchainToken at hx
+      split at hx
+      · cases hx
+      · exact Proofs.C05.deployRemote_sum H k hx a hnd hca hgs
+  case deployRemoteCanonical au t de sp gt ga =>
+    have hsp : sp ∈ hs := hcov sp (by simp [touched])
+    have hgs : st.gasService ∈ hs := hcov _ (by simp [touched])
+    cases hx : deployRemoteCanonicalToken H k st au t de sp gt ga with
+    | error e => simp only [step, hx, wrapId, Int.add_zero]
+    | ok r =>
+      simp only [step, hx, wrapId, sumBal, supplyFlow, Int.add_zero]
+      exact Proofs.C05.deployRemote_sum H k hx a hnd hsp hgs
+  case transfer au ca ti de da am dt gt ga =>
+    have hca : ca ∈ hs := hcov ca (by simp [touched])
+    have hself : st.self ∈ hs := hcov _ (by simp [touched])
+    have hgs : st.gasService ∈ hs := hcov _ (by simp [touched])
+    cases hx : interchainTransfer H k st au ca ti de da am dt gt ga with
+    | error e => simp only [step, hx, wrapEv, Int.add_zero]
+    | ok r =>
+      simp only [step, hx, wrapEv, sumBal, supplyFlow]
+      exact Proofs.C05.interchainTransfer_sum H k hx a hnd hca hself hgs
+  case execute c i sa p =>
+    cases hx : execute H S k st c i sa p with
+    | error e => simp only [step, hx, wrapEv, Int.add_zero]
+    | ok r =>
+      simp only [step, hx, wrapEv, sumBal, supplyFlow]
+      exact Proofs.C05.execute_sum H S k hx a hnd hcov
+  case userTransfer t s d am au =>
+    have hs' : s ∈ hs := hcov s (by simp [touched])
+    have hd' : d ∈ hs := hcov d (by simp [touched])
+    simp only [step, supplyFlow]
+    split
+    · simp only [Int.add_zero]
+    · split
+      · rename_i st' hx
+        simp only [sumBal, Int.add_zero]
+        exact Proofs.C05.tokTransfer_sum hx a hnd hs' hd'
+      · simp only [Int.add_zero]
+  case minterMint t m d am au =>
+    have hd' : d ∈ hs := hcov d (by simp [touched])
+    simp only [step, supplyFlow]
+    split
+    · rename_i tk htk
+      split
+      · simp only [Int.add_zero]
+      · simp only [sumBal]
+        rw [Proofs.C05.bal_add_sum htk a hnd hd']
+        by_cases he : a = t
+        · subst he; simp
+        · have he' : ¬ t = a := fun e => he e.symm
+          simp [he, he']
+    · simp only [Int.add_zero]
+  case gateway f =>
+    simp only [step, supplyFlow, sumBal, Int.add_zero]
+    exact Proofs.C05.sumBal_tokens rfl a hs
+  all_goals
+    simp only [sumBal, supplyFlow]
+    refine Eq.trans (Proofs.C05.sumBal_tokens (Proofs.C05.step_tokens_other H S k st _ (by exact True.intro)) a hs) ?_
+    split <;> simp only [Int.add_zero]
+
+/-- **supply = initial supply + mints − burns, for every token, over every history**: over any set of holders that
+    contains every party of the history (and the service and the gas service when they take part), the total of token
+    `a` changes exactly by the initial supply of the deployment that created it, the service's mints for inbound
+    transfers, its burns for outbound transfers, and the designated minters' own mints -/
+theorem supply_run (st : State) (ops : List Op) (a : Addr) (hs : List Addr) (hnd : hs.Nodup)
+    (hcov : ∀ op ∈ ops, ∀ x ∈ touched st.self st.gasService op, x ∈ hs) :
+    sumBal (run H S k st ops).1 a hs = sumBal st a hs + netSupply H S k st a ops := by
+  induction ops generalizing st with
+  | nil => simp only [run, netSupply, Int.add_zero]
+  | cons op ops ih =>
+    have e : (run H S k st (op :: ops)).1 = (run H S k (step H S k st op).1 ops).1 := rfl
+    obtain ⟨hself, hgsv, -⟩ := frame_step H S k st op
+    have h1 := supply_step H S k st op a hs hnd (hcov op (List.mem_cons_self ..))
+    have h2 := ih (step H S k st op).1
+      (fun o ho => by rw [hself, hgsv]; exact hcov o (List.mem_cons_of_mem _ ho))
+    rw [e, h2, h1]
+    simp only [netSupply, Int.add_assoc]
+
 /-! ### refinement: on a service-deployed token the ledger primitives used above ARE the token contract's entry points
     (`Cgp.Token`, the model checked against contracts/interchain-token by property C12) -/
 
@@ -273,5 +416,59 @@ theorem mint_refines (st : State) (a : Addr) (ts : Token.State) (tid name symbol
       · right; simp [asTok, hown, hauth, hm, hn, ho, e]
       · left; simp [asTok, hown, hauth, hm, hn, ho, setTok, e]
   · right; simp [asTok, hown, hauth, hm]
+
+/-! ### non-vacuity (the service model RUN in the kernel on a concrete history, toy hash) -/
+section NonVacuity
+open Cgp.Toy
+
+def k0 : Consts := ⟨[104], [1], [2], [3], [4]⟩
+def svc : Addr := ⟨true, List.replicate 32 8⟩
+def gsA : Addr := ⟨true, List.replicate 32 5⟩
+def user : Addr := ⟨false, List.replicate 32 11⟩
+def gasTok : Addr := ⟨true, List.replicate 32 21⟩
+def canon : Addr := ⟨true, List.replicate 32 22⟩
+def sac (b : Int) : Tok := { kind := .sac, name := [71], symbol := [71], decimals := 7, bal := fun a => if a = user then b else 0, owner := owner0, minter := fun _ => false, tokenId := [] }
+def gw0 : Gateway.State := Gateway.initState owner0 owner0 [1] 0 0
+def st0 : State :=
+  { self := svc, owner := owner0, gatewayAddr := ⟨true, List.replicate 32 6⟩, gasService := gsA,
+    hubAddress := [120], chainName := [115], trusted := fun c => c == [101], registry := fun _ => none, gw := gw0,
+    tokens := fun a => if a = gasTok then some (sac 1000) else if a = canon then some (sac 500) else none, executable := fun _ => false }
+def salt : Bytes := List.replicate 32 1
+def tid1 : Bytes := interchainTokenId H0 k0 [115] user salt
+def a1 : Addr := deployedAddress S0 k0 svc tid1
+def tidc : Bytes := canonicalTokenId H0 k0 [115] canon
+def inbound (tid : Bytes) (amt : Int) : Bytes :=
+  match Abi.encodeHub (.receiveFromHub [101] (.transfer ⟨tid, [9], enc (.addr user), amt, none⟩)) with
+  | .ok b => b
+  | .error _ => []
+def approveFor (id payload : Bytes) (g : Gateway.State) : Gateway.State :=
+  { g with approvals := fun c i => if c = [104] ∧ i = id then .approved (Gateway.messageHash H0 ⟨[104], id, [120], svc, H0 payload⟩) else g.approvals c i }
+def ops : List Op :=
+  [ .deploy [user] user salt [84] [84] 6 100 none,
+    .registerCanonical canon,
+    .transfer [user] user tid1 [101] [1] 30 none gasTok 5,
+    .transfer [user] user tidc [101] [1] 40 none gasTok 5,
+    .gateway (approveFor [49] (inbound tid1 20)),
+    .execute [104] [49] [120] (inbound tid1 20),
+    .gateway (approveFor [50] (inbound tidc 15)),
+    .execute [104] [50] [120] (inbound tidc 15),
+    .transfer [user] user tid1 [101] [1] 1000 none gasTok 5 ]     -- more than the holder has: refused, counts for nothing
+def okObs : Obs → Bool | .err _ => false | _ => true
+
+instance (self : Addr) (op : Op) : Decidable (Clean self op) := by
+  cases op <;> simp only [Clean] <;> infer_instance
+
+/-- the hypotheses of `custody_run` and `supply_run` are satisfiable and the equations are not `0 = 0`: a history with a local
+    deployment (supply 100), a canonical registration, an outbound burn (30) and lock (40), an inbound mint (20) and release
+    (15) and a refused transfer; every hypothesis holds, net supply is 100 − 30 + 20 and net custody 40 − 15 -/
+theorem equations_nonvacuous :
+    (run H0 S0 k0 st0 ops).2.map okObs = [true, true, true, true, true, true, true, true, false] ∧
+    st0.gasService ≠ st0.self ∧ (∀ op ∈ ops, Clean st0.self op) ∧
+    [user, svc, gsA].Nodup ∧ (∀ op ∈ ops, ∀ x ∈ touched st0.self st0.gasService op, x ∈ [user, svc, gsA]) ∧
+    netSupply H0 S0 k0 st0 a1 ops = 90 ∧ sumBal (run H0 S0 k0 st0 ops).1 a1 [user, svc, gsA] = 90 ∧
+    netCustody H0 S0 k0 st0 canon ops = 25 ∧ balOf (run H0 S0 k0 st0 ops).1 canon svc = 25 := by
+  decide +kernel
+
+end NonVacuity
 
 end Cgp.Props.C05
